@@ -62,3 +62,10 @@ package util
 //@   ensures typeis(arg0, *slov1alpha1.SystemStrategy) && typeis(arg1, *slov1alpha1.SystemStrategy) && payload(arg0, *slov1alpha1.SystemStrategy) != nil && payload(arg1, *slov1alpha1.SystemStrategy) != nil ==> fresh(payload(result0, *slov1alpha1.SystemStrategy))
 //@   modifies nothing
 //@   option trusted
+
+// Property C09: kubelet reservation of a node = max(0, capacity - allocatable) for cpu and memory (node.go); a new list, nothing written.
+//@ func GetNodeReservationFromKubelet [C09]
+//@   ensures #fresh: fresh(result)
+//@   ensures #vals: node != nil ==> (forall n corev1.ResourceName :: {val(result, n)} val(result, n) == ((n == corev1.ResourceCPU || n == corev1.ResourceMemory) ? max0(val(node.Status.Capacity, n) - val(node.Status.Allocatable, n)) : 0))
+//@   ensures #keys: node != nil ==> (forall n corev1.ResourceName :: {has(result, n)} has(result, n) <==> (n == corev1.ResourceCPU || n == corev1.ResourceMemory))
+//@   modifies nothing
